@@ -1,6 +1,115 @@
 package main
 
-import "verif/ev"
+import (
+	"fmt"
+	"time"
 
-// runWire is filled in by the connection-level world (E2).
-func runWire(r *ev.Run) {}
+	"github.com/plgd-dev/go-coap/v3/message"
+	"github.com/plgd-dev/go-coap/v3/message/codes"
+	"github.com/plgd-dev/go-coap/v3/message/pool"
+	"github.com/plgd-dev/go-coap/v3/net/responsewriter"
+	tcpclient "github.com/plgd-dev/go-coap/v3/tcp/client"
+	udpclient "github.com/plgd-dev/go-coap/v3/udp/client"
+
+	"verif/ev"
+	"verif/mcx"
+	"verif/vrt"
+	"verif/worlds/tcpw"
+	"verif/worlds/udpw"
+)
+
+// Wire part (engine E2): requests carrying a No-Response option are injected into a real
+// udp/client.Conn and a real tcp/client.Conn in the server role; the handler calls SetResponse.
+// Suppressed => nothing on the wire except the bare ACK of a confirmable request; not
+// suppressed => the response is emitted.
+
+var wireCodes = []codes.Code{codes.Content, codes.Changed, codes.Code(0x40) /*2.00*/, codes.Code(0x5f) /*2.31*/, codes.BadRequest, codes.NotFound, codes.Code(0x88) /*4.08*/, codes.Code(0x9d) /*4.29*/, codes.InternalServerError, codes.Code(0xa6) /*5.06*/, codes.Code(0xbf) /*5.31*/}
+var wireValues = []uint32{0, 2, 8, 16, 10, 18, 24, 26, 1, 4, 32, 127}
+
+func wireScenario(transport string) *mcx.Scenario {
+	return &mcx.Scenario{
+		Name:   "no-response on the wire: " + transport,
+		Bounds: mcx.Bounds{Preempt: 0, Env: -1, Select: 0},
+		Body: func(s *vrt.Sched) func() (string, []mcx.Finding) {
+			var fs []mcx.Finding
+			desc := ""
+			vrt.App("env", func() {
+				vi := vrt.Choose(len(wireValues), nil)
+				ci := vrt.Choose(len(wireCodes), nil)
+				con := vrt.Choose(2, nil) == 0
+				value, code := wireValues[vi], wireCodes[ci]
+				desc = fmt.Sprintf("%s value=%d code=%d.%02d con=%v", transport, value, code>>5, code&31, con)
+				want := specSuppressed(uint8(code), value)
+				refused := false
+				handle := func(set func(codes.Code) error) {
+					if err := set(code); err != nil {
+						refused = true
+					}
+				}
+				bo := make([]byte, 4)
+				opts, _, _ := message.Options{{ID: message.URIPath, Value: []byte("r")}}.SetUint32(bo, message.NoResponse, value)
+				var outs []message.Message
+				if transport == "udp" {
+					w := udpw.New(udpw.Opts{QueueSize: 2, LimitTotal: 2, LimitEndpoint: 2, Handler: func(rw *responsewriter.ResponseWriter[*udpclient.Conn], r *pool.Message) {
+						handle(func(c codes.Code) error { return rw.SetResponse(c, message.TextPlain, nil) })
+					}})
+					typ := message.NonConfirmable
+					if con {
+						typ = message.Confirmable
+					}
+					_ = w.Inject(message.Message{Type: typ, Code: codes.POST, MessageID: 4711, Token: message.Token{0x20}, Options: opts})
+					vrt.Quiesce("env: handled")
+					for _, o := range w.NewOuts() {
+						outs = append(outs, o.M)
+					}
+					if want {
+						if con {
+							if len(outs) != 1 || outs[0].Type != message.Acknowledgement || outs[0].Code != codes.Empty || outs[0].MessageID != 4711 {
+								fs = append(fs, mcx.Finding{Sig: "wire/suppressed-response-on-the-wire/udp", What: fmt.Sprintf("%s: expected only the bare ACK, conn wrote %v", desc, describe(outs))})
+							}
+						} else if len(outs) != 0 {
+							fs = append(fs, mcx.Finding{Sig: "wire/suppressed-response-on-the-wire/udp", What: fmt.Sprintf("%s: expected nothing on the wire, conn wrote %v", desc, describe(outs))})
+						}
+					} else if len(outs) != 1 || outs[0].Code != code {
+						fs = append(fs, mcx.Finding{Sig: "wire/unsuppressed-response-dropped/udp", What: fmt.Sprintf("%s: expected the response, conn wrote %v", desc, describe(outs))})
+					}
+				} else {
+					w := tcpw.New(tcpw.Opts{QueueSize: 2, LimitTotal: 2, LimitEndpoint: 2, DisableCSM: true, Handler: func(rw *responsewriter.ResponseWriter[*tcpclient.Conn], r *pool.Message) {
+						handle(func(c codes.Code) error { return rw.SetResponse(c, message.TextPlain, nil) })
+					}})
+					w.Inject(message.Message{Code: codes.POST, Token: message.Token{0x20}, Options: opts})
+					vrt.Quiesce("env: handled")
+					outs = w.NewOuts()
+					if want && len(outs) != 0 {
+						fs = append(fs, mcx.Finding{Sig: "wire/suppressed-response-on-the-wire/tcp", What: fmt.Sprintf("%s: expected nothing on the wire, conn wrote %v", desc, describe(outs))})
+					}
+					if !want && (len(outs) != 1 || outs[0].Code != code) {
+						fs = append(fs, mcx.Finding{Sig: "wire/unsuppressed-response-dropped/tcp", What: fmt.Sprintf("%s: expected the response, conn wrote %v", desc, describe(outs))})
+					}
+				}
+				if refused != want {
+					fs = append(fs, mcx.Finding{Sig: "wire/setresponse-verdict", What: fmt.Sprintf("%s: SetResponse refused=%v, RFC 7967 says %v", desc, refused, want)})
+				}
+			})
+			return func() (string, []mcx.Finding) { return desc, fs }
+		},
+	}
+}
+
+func describe(ms []message.Message) string {
+	s := "["
+	for _, m := range ms {
+		s += fmt.Sprintf("%v/%v/mid=%d ", m.Type, m.Code, m.MessageID)
+	}
+	return s + "]"
+}
+
+func runWire(r *ev.Run) {
+	scs := []*mcx.Scenario{wireScenario("udp"), wireScenario("tcp")}
+	sum := mcx.Explore(r, scs, mcx.Config{Wall: 3 * time.Minute})
+	r.Set("wire_executions", sum.Execs)
+	r.Set("wire_distinct_cases", int64(len(sum.Outcomes)))
+	r.Set("wire_rule", "every combination of 12 No-Response values x 11 response codes (one per class plus codes absent from the library's lists: 2.00, 2.31, 4.08, 4.29, 5.06, 5.31) x CON|NON injected into a real udp/client.Conn and tcp/client.Conn whose handler calls SetResponse; oracle on the bytes the connection wrote")
+	r.Add("evaluations", sum.Execs)
+	r.Sample(map[string]any{"part": "wire", "case": "udp value=26 code=4.08 con=true", "expected": "bare ACK only"})
+}
